@@ -9,6 +9,7 @@ import (
 	"time"
 
 	"tsim/kernel"
+	"tsim/lc"
 	"tsim/node"
 	"tsim/xr"
 )
@@ -31,6 +32,7 @@ func registry() *kernel.Registry {
 		reg.Serves[p] = append(reg.Serves[p], "xr")
 	}
 	xr.Register(reg)
+	lc.Register(reg)
 	return reg
 }
 
